@@ -51,7 +51,8 @@ ASSUMPTIONS = [
     "oracle tolerances: below-face and depth overshoot 1e-7 x groove size (100 x the validator's relative tolerance, "
     "rounding only); deepest vertex >= depth - (neighbouring vertex spacing)/9 (sagitta of a circle sampled with >= 20 "
     "z-steps per arc); flank/face meeting point 2e-6/sin^2(flank angle) x size for solver-backed classes (xtol of "
-    "hybr/fixed_point x conditioning), 2e-3 x depth for the generic class (the constructor's documented step tolerance)",
+    "hybr/fixed_point x conditioning), 2e-3 x depth for the generic class (the constructor's documented step tolerance); "
+    "every absolute allowance + 8 ulp(largest radius) (cancellation in the junction sums when a radius dwarfs the groove)",
 ]
 TRUSTED_EXTRA = ["translator driver/translate/c03_validate.py (+ groove.py): AST whitelist -> check/piece tables; mitigated "
                  "by running the generated tables through the Lean model against every real construction"]
@@ -531,7 +532,8 @@ def check_wellformed(ctx, cname, tag, kwargs, g, route):
     # rounding allowance: 1e-7 x size (100 x the validator's relative tolerance) + cancellation in y = yc +- sqrt(r^2 - dz^2) for
     # an arc whose radius dwarfs the groove (absolute error of a few ulp(r))
     rmax = max([abs(float(getattr(g, k, 0.0) or 0.0)) for k in ("r1", "r2", "r3", "r4")] + [0.0])
-    eps = 1e-7 * size + (8 * math.ulp(rmax) if math.isfinite(rmax) else 0.0)
+    rnd = 8 * math.ulp(rmax) if math.isfinite(rmax) else 0.0
+    eps = 1e-7 * size + rnd
     # mirror symmetry about the groove centre: the vertex list read backwards is its own mirror image, centre vertex on z = 0
     if len(pts) % 2 != 1 or not (np.array_equal(z, -z[::-1]) and np.array_equal(y, y[::-1])):
         viol("not-symmetric", "the contour is not mirror-symmetric about z = 0")
@@ -590,7 +592,9 @@ def check_wellformed(ctx, cname, tag, kwargs, g, route):
         if cname in RADIANS:
             tolf = 2e-3 * depth / sfa + eps
         else:
-            tolf = (2e-6 if cname in ITERATIVE else 1e-9) / sfa ** 2 * size + (1e-8 + 1e-5 * size)   # + np.isclose slack
+            # + np.isclose slack + cancellation: junctions 3/4 are sums of terms of the size of the largest radius (absolute
+            # rounding error of a few ulp(rmax); only visible when a radius dwarfs the groove, e.g. r3 = 1e12 x width)
+            tolf = (2e-6 if cname in ITERATIVE else 1e-9) / sfa ** 2 * size + (1e-8 + 1e-5 * size) + rnd
         right = pts[len(pts) // 2:]
         s = (right[:, 0] - uw / 2) * math.sin(fa) + right[:, 1] * math.cos(fa)      # signed distance to the flank line
         i = int(np.argmin(np.abs(s)))
@@ -633,7 +637,7 @@ def check_wellformed(ctx, cname, tag, kwargs, g, route):
         if k in ("flank_width", "flank_height", "flank_length"):
             fw, fh = g.z3 - g.z4, g.y4 - g.y3
             have = {"flank_width": fw, "flank_height": fh, "flank_length": math.copysign(math.hypot(fw, fh), fw)}[k]
-            lim = (2e-6 / max(abs(math.sin(fa)), 1e-3) ** 2) * size
+            lim = (2e-6 / max(abs(math.sin(fa)), 1e-3) ** 2) * size + rnd
         elif k in ("r1", "r2", "r3", "r4", "indent"):
             lim = 0.0
         elif k == "depth" and cname in BOX_PLAIN + BOX_CONSTR:
